@@ -81,8 +81,18 @@ def build(item):
                     exp = base[("i", ci)][k] + exp
                 sym.check("cross_hits[%s]" % (combo,), xm.get_bin_hits(k) == exp)
                 # name and order follow the coverpoints' bins
-                want = "<" + ",".join(m.coverpoint_l[cpidx[n]].get_bin_name(bi) for n, bi in zip(cr["cps"], combo)) + ">"
-                sym.check("cross_bin_name[%d]" % k, xm.get_bin_name(k) == want)
+                # "named after them": the names of the combination's bins appear in the cross bin's name, in the coverpoints' order
+                # (the separator/bracketing is the library's choice)
+                parts = [m.coverpoint_l[cpidx[n]].get_bin_name(bi) for n, bi in zip(cr["cps"], combo)]
+                nm = xm.get_bin_name(k)
+                pos, okn = 0, True
+                for pt in parts:
+                    j = nm.find(pt, pos)
+                    if j < 0:
+                        okn = False
+                        break
+                    pos = j + len(pt)
+                sym.check("cross_bin_name[%d]" % k, okn)
                 k += 1
             # type-level cross of a single instance agrees
             tx = m.type_cg.cross_l[ci]
